@@ -7,14 +7,18 @@
    types and any print options, text length = returned length, the checker
    accepts with the count the scanner writes, the scanner consumes the whole
    text, and the values come back (ranges by expansion).
-   Proved part: [good_val] - int32, int64, chars, true/false/nil/inf, strings
-   and quoted symbols with every escape and every string line break; every
-   line length, precision, column.  The model covers range conversion, arrays
-   and messages (Pretty/PrintModel.v, ScanModel.v); the round trip of whole
-   lists is proved with compression off (C10_roundtrip_partial,
-   C10_message_partial), the range conversion itself and the reading of
-   repetitions separately (C10_range_expand, C10_repetition_reads_partial);
-   see notes/C10.md for what is still open. *)
+   Proved (see the comment at each theorem and notes/C10.md): the round trip
+   for EVERY option record - compression on or off - and unbounded lists of
+   int32, int64, chars, true/false/nil/inf, strings, symbols (quoted or bare),
+   colours, MIDI, blobs and, with the lossless option, every finite float and
+   double (C10_roundtrip_any_partial, C10_message_any_partial), for arrays
+   (C10_array_roundtrip_partial) and for the text forms of lists that mix arrays
+   with other values (C10_mixed_reads_partial).  The first theorems
+   (C10_roundtrip_partial, C10_message_partial, C10_print_total) are the
+   compression-off fragment over [good_val] of the first stage; the range
+   conversion itself and the reading of repetitions are stated separately
+   (C10_range_expand, C10_repetition_reads_partial).  Side conditions are
+   named at the theorems; time tags are outside. *)
 From Coq Require Import List ZArith.
 From RtoscV Require Import Pretty.Tok Pretty.FloatFmt Pretty.PrintModel Pretty.ScanModel
   Pretty.PrettyProofs Pretty.FloatProofs Pretty.SymBlobProofs Pretty.RangeProofs Pretty.RunProofs Pretty.ListProofs Pretty.ArrayProofs Pretty.MixedProofs Pretty.PrettyRegress.
@@ -45,6 +49,11 @@ Theorem C10_linebreak_transparent : forall (dec2f dec2d : list Z -> Z) vs T,
   count_printed_arg_vals dec2f dec2d T = Ok (true, Z.of_nat (length vs)) /\
   scan_arg_vals dec2f dec2d T (Z.of_nat (length vs)) = Ok (vs, []).
 Proof. exact (fun a b vs T H => conj (count_lang a b vs T H) (scan_lang a b vs T H)). Qed.
+
+(* non-vacuity: "1" newline four blanks "true" tab "-7" *)
+Theorem C10_linebreak_nonvacuous : forall (dec2f dec2d : list Z -> Z),
+  lang dec2f dec2d [VI 1; VT; VI (-7)] ([49] ++ nl4 ++ kw_true ++ [9] ++ [45; 55]).
+Proof. exact linebreak_example. Qed.
 
 (* rtosc_convert_to_range: whenever it converts the head of a list of scalar
    values into a range block, the block expands (PrintModel.expand) to exactly
